@@ -1079,6 +1079,40 @@ def run_simpolicy_case(case, res):
                     res.violation("C12", "memory-table-stale", "%s: block not resident, the memory table shows %#x for word %#x, logical %#x" % (where, tab.get(a, 0), a, lg), case)
                     return
     res.count("sim_policy_programs")
+    # the same program in the five-stage pipeline (its stores go through the stage-split memory_access path): the
+    # configured policy's invariant at the end of the run, logical contents = the reference's final memory
+    if ref.done():
+        sim5 = make_riscv("five", dcache=cfg)
+        install_program(sim5, case["prog"])
+        set_regs(sim5, case["regs"])
+        preload_mem(sim5, case["mem"])
+        n5 = 0
+        try:
+            while not sim5.is_done() and n5 < 6 * case["max_instr"] + 50:
+                sim5.step()
+                n5 += 1
+        except Exception:
+            n5 = -1
+        if n5 >= 0 and sim5.is_done():
+            m5 = sim5.state.memory
+            tags, words, dirty = resident_view(m5)
+            res.count("sim_policy_five_stage_ends")
+            for a in {a_ & ~3 for a_ in ref.mem.b}:
+                lg = ref.mem.rd(a, 4)
+                bk = int(m5.memory.read_word(a))
+                where = "end of the five-stage run, %s configured" % ("write-through" if wt else "write-back")
+                if wt and bk != lg:
+                    res.violation("C12", "wt-backing-stale", "%s: backing word %#x = %#x, logical %#x" % (where, a, bk, lg), case)
+                    return
+                if wt and a in words and words[a] != bk:
+                    res.violation("C12", "wt-resident-differs", "%s: resident word %#x = %#x, backing %#x" % (where, a, words[a], bk), case)
+                    return
+                if not wt and a not in words and bk != lg:
+                    res.violation("C12", "wb-lost-write", "%s: word %#x not resident, backing %#x, logical %#x" % (where, a, bk, lg), case)
+                    return
+                if not wt and a in words and words[a] != lg:
+                    res.violation("C12", "wb-resident-stale", "%s: resident word %#x = %#x, logical %#x" % (where, a, words[a], lg), case)
+                    return
     if evictions:
         res.count("sim_policy_programs_with_evictions")
         res.nontrivial(h64(case))
